@@ -6,6 +6,7 @@ package main
 // a script with an unknown line is not judged by it.
 
 import (
+	"fmt"
 	"regexp"
 	"sort"
 	"strconv"
@@ -13,6 +14,10 @@ import (
 )
 
 const absWork = "/W" // stands for $WORK inside the evaluator
+
+// unpredicted is the stdout of helper subcommands whose output the evaluator does not
+// predict (pwd, environ): any later line that looks at it makes the script unknown
+const unpredicted = "\x00unpredicted\x00"
 
 type gproc struct {
 	name      string
@@ -351,6 +356,9 @@ func (ev *evaluator) evalLine(line string) lineRes {
 	case "exec":
 		return ev.exec(neg, args)
 	case "stdout":
+		if g.out == unpredicted {
+			return rUnknown
+		}
 		return ev.match(neg, args, g.out, false)
 	case "stderr":
 		return ev.match(neg, args, g.err, false)
@@ -904,8 +912,14 @@ func (ev *evaluator) helper(a []string, bg bool) (code int, out, errS string, sl
 			return 0, "", "", false, false
 		}
 		return 0, "", "", true, true
-	case "pwd":
-		return 0, "", "", false, false
+	case "pwd", "environ":
+		if len(r) != 0 {
+			return usage()
+		}
+		if bg {
+			return 0, "", "", false, false
+		}
+		return 0, unpredicted, "", false, true
 	}
 	return usage()
 }
@@ -981,7 +995,7 @@ type Expect struct {
 	Verdict   string // pass | fail | skip
 	FailLine  int    // first failing line
 	FailLines []int
-	Tree      []string // "relpath|f|hexdata" and "relpath|d" of the final tree (no modes)
+	Tree      []string // "relpath|f|mode|hexdata", "relpath|d|mode", "relpath|l" of the final tree
 	Why       string
 }
 
@@ -1050,11 +1064,11 @@ loop:
 		ex.Verdict = end
 	}
 	for p, d := range g.files {
-		ex.Tree = append(ex.Tree, strings.TrimPrefix(p, absWork+"/")+"|f|"+hexs(d))
+		ex.Tree = append(ex.Tree, fmt.Sprintf("%s|f|%d|%s", strings.TrimPrefix(p, absWork+"/"), g.modes[p], hexs(d)))
 	}
 	for d := range g.dirs {
 		if d != absWork {
-			ex.Tree = append(ex.Tree, strings.TrimPrefix(d, absWork+"/")+"|d")
+			ex.Tree = append(ex.Tree, strings.TrimPrefix(d, absWork+"/")+"|d|493")
 		}
 	}
 	for o := range g.opaque {
